@@ -10,9 +10,10 @@ import Driver.C05
 import Driver.C06
 import Driver.C13
 import Driver.C16
+import Driver.C17
 open Drv
 
-def handlers : List (String → Handler) := [Drv.C08.handle, Drv.C09.handle, Drv.C10.handle, Drv.Sch.handle, Drv.C01.handle, Drv.C02.handle, Drv.C05.handle, Drv.C04.handle, Drv.C06.handle, Drv.C13.handle, Drv.C16.handle]
+def handlers : List (String → Handler) := [Drv.C08.handle, Drv.C09.handle, Drv.C10.handle, Drv.Sch.handle, Drv.C01.handle, Drv.C02.handle, Drv.C05.handle, Drv.C04.handle, Drv.C06.handle, Drv.C13.handle, Drv.C16.handle, Drv.C17.handle]
 
 def answer (line : String) : String :=
   let (lhs, impl) := match line.trimAscii.toString.splitOn " => " with
